@@ -18,7 +18,7 @@ namespace RbModel.Outcome
 inductive RtErr where
   | badFileMode | badFileNameOrNumber | badRecordLength | badRecordNumber | divisionByZero
   | elementNotDefined | fieldOverflow | fileAlreadyOpen | fileNotFound | forLoopZeroStep
-  | deviceIOError | illegalFunctionCall | inputPastEndOfFile | linterError | outOfData | overflow
+  | deviceIOError | illegalFunctionCall | inputPastEndOfFile | linterError | outOfData | outOfMemory | overflow
   | returnWithoutGoSub | subscriptOutOfRange | typeMismatch | variableRequired | other
   | resumeWithoutError
   deriving DecidableEq, Repr, Inhabited
@@ -27,7 +27,8 @@ inductive RtErr where
 def RtErr.all : List RtErr :=
   [.badFileMode, .badFileNameOrNumber, .badRecordLength, .badRecordNumber, .divisionByZero,
    .elementNotDefined, .fieldOverflow, .fileAlreadyOpen, .fileNotFound, .forLoopZeroStep,
-   .deviceIOError, .illegalFunctionCall, .inputPastEndOfFile, .linterError, .outOfData, .overflow,
+   .deviceIOError, .illegalFunctionCall, .inputPastEndOfFile, .linterError, .outOfData, .outOfMemory,
+   .overflow,
    .returnWithoutGoSub, .subscriptOutOfRange, .typeMismatch, .variableRequired, .other,
    .resumeWithoutError]
 
@@ -40,7 +41,7 @@ def RtErr.name : RtErr → String
   | .fileNotFound => "FileNotFound" | .forLoopZeroStep => "ForLoopZeroStep"
   | .deviceIOError => "DeviceIOError" | .illegalFunctionCall => "IllegalFunctionCall"
   | .inputPastEndOfFile => "InputPastEndOfFile" | .linterError => "LinterError"
-  | .outOfData => "OutOfData" | .overflow => "Overflow"
+  | .outOfData => "OutOfData" | .outOfMemory => "OutOfMemory" | .overflow => "Overflow"
   | .returnWithoutGoSub => "ReturnWithoutGoSub" | .subscriptOutOfRange => "SubscriptOutOfRange"
   | .typeMismatch => "TypeMismatch" | .variableRequired => "VariableRequired" | .other => "Other"
   | .resumeWithoutError => "ResumeWithoutError"
